@@ -1,21 +1,28 @@
 package rules
 
-import "hrverif/internal/core"
+import (
+	"strings"
+
+	"hrverif/internal/core"
+)
 
 func init() {
 	register(&Property{
 		ID:    "C07",
-		Rules: []string{"C07-R1", "C07-R4", "C07-R5", "C07-R6", "C07-R7", "C06-R4", "C06-R6", "C06-R7", "C05-R3", "C03-R8", "C01-R4", "C01-R5", "C02-R5", "C07-R8", "C15-R4"},
+		Rules: []string{"C07-R1", "C07-R4", "C07-R5", "C07-R6", "C07-R7", "C06-R4", "C06-R6", "C06-R7", "C05-R3", "C03-R8", "C01-R4", "C01-R5", "C02-R5", "C07-R8", "C07-R9", "C02-R10", "C15-R4", "C03-R7"},
 		Explain: "Decides that the separately written accumulations have the same shape, which is what makes their figures comparable: C07-R1 for every function that looks a logged food up in the recipe book, every contribution (Accumulator.Add, TreeNode.AddDeep, Elements.Add, scalar +=, printed row, set insertion) is extracted with its name class, value class, found ∈ {T,F} and element filter, and must agree with 'quantity x resolved element under the element's name, else the food itself with its own quantity', with the same sinks and the same selected element on both sides; the unresolved report records a name exactly when the lookup fails; " +
 			"C07-R4 each record count stats prints is a counter incremented exactly once per record delivered with a nil error and never on an error; C05-R3 (shared) nothing reads the wall clock outside the default of --today, so the day distances of stats are computed from the supplied now; C06-R6 (shared) the window of summary is the calendar day of the requested date; C06-R4/R7 (shared with C06) every command reads the period through the context lineage, so a global -b/-e selects the same days for all of them, and no command moves dates to the process time zone (summary and register agree on what a day is); C07-R5 every reporter selector (register, balance) returns an element-filtering reporter exactly when a single element is requested; C07-R6 every reporter's Process leaves each loop over the day's entries only at its head, on a set error or by returning an error value (no return nil or break drops the rest of a day from one report while the others count it); C07-R7 every day distance stats prints is the truncated quotient hours/24 of the supplied current date minus a date of the log; " +
-			"shared inputs of all the reports compared: C03-R8 the balance tree receives every amount on every segment, C01-R4/R5 resolved lists hold one slot per name, C02-R5 a day's foods are merged by name. C07-R8 report element-total decides which foods are listed by name comparisons only.",
+			"shared inputs of all the reports compared: C03-R8 the balance tree receives every amount on every segment, C01-R4/R5 resolved lists hold one slot per name, C02-R5 a day's foods are merged by name. C07-R8 report element-total decides which foods are listed by name comparisons only. C07-R9 the element asked for with --single-element never reaches a prefix, substring, case-folding or pattern test in any report; C02-R10 (shared) no loop iteration of the reporting code is cut short by a test on an amount. C03-R7 (shared) the grand total of the single-element balance is a scalar fed together with the tree; C15-R4 (shared) what the day's accumulator receives does not depend on the totals switches.",
 		NotDecided: "numeric equality between any two reports, rounding at the printed precision, the numeric result of the day distances (C07-R7 decides the shape of the computation), which date layout stats parses headings with (C14-R1)",
 		Run: func(c *core.Ctx) {
+			ruleGrandTotal(c, "C03-R7")  // the grand total of the single-element balance is fed together with the tree
 			ruleTotalsGates(c, "C15-R4") // the daily totals receive the same contributions whatever the totals switches say
 			ruleElementTotalRows(c, "C07-R8")
 			ruleExpansionSites(c, "C07-R1", nil)
 			ruleStatsCounters(c, "C07-R4")
 			ruleReporterSelection(c, "C07-R5", nil)
+			ruleExactElementMatch(c, "C07-R9")
+			ruleNoAmountSkips(c, "C02-R10", func(p string) bool { return strings.HasPrefix(p, core.CmdPath) })
 			ruleEveryEntrySeen(c, "C07-R6")
 			ruleDayDistances(c, "C07-R7")
 			ruleLineage(c, "C06-R4", func(n string) bool { return n == "begin" || n == "end" })
